@@ -7,6 +7,7 @@ import CedarVerif.Driver.Ops.Est
 import CedarVerif.Driver.Ops.Fmt
 import CedarVerif.Driver.Ops.Json
 import CedarVerif.Driver.Ops.Partial
+import CedarVerif.Driver.Ops.NoPanic
 /-
 Line-protocol driver: one request per line on stdin, one reply per line on stdout.
 Unknown or malformed requests answer `(bad-op)`; the driver never defaults.
@@ -24,7 +25,8 @@ def handlers : List (Sexp → Option String) := [
   Ops.handleEst,
   Ops.handleFmt,
   Ops.handleJson,
-  Ops.handlePartial
+  Ops.handlePartial,
+  Ops.handleNoPanic
 ]
 
 def handle (x : Sexp) : String :=
